@@ -12,8 +12,17 @@ BAD = ("error", "failure", "uxsuccess")
 TAGS = ["t", "u", "v", "w"]
 
 
+OTHER_TZ = datetime.timezone(datetime.timedelta(hours=5, minutes=30))
+
+
 def ts(k):
-    return None if k is None else datetime.datetime(2001, 2, 3, 4, 5, 0, tzinfo=UTC) + datetime.timedelta(seconds=k)
+    """k seconds after a fixed instant (k may be fractional); k >= 1000 means: k - 1000 seconds after it, expressed
+    in a time zone other than UTC."""
+    if k is None:
+        return None
+    if k >= 1000:
+        return (datetime.datetime(2001, 2, 3, 4, 5, 0, tzinfo=UTC) + datetime.timedelta(seconds=k - 1000)).astimezone(OTHER_TZ)
+    return datetime.datetime(2001, 2, 3, 4, 5, 0, tzinfo=UTC) + datetime.timedelta(seconds=k)
 
 
 CT_SPECS = [
@@ -25,7 +34,8 @@ CT_SPECS = [
     ("text", "x-log", {"charset": "latin-1", "origin": "a;b=c"}),
     ("text", "csv", {"charset": "utf8", "columns": "id,name,status"}),
 ]
-TEXT_CHUNKS = st.sampled_from([b"", b"a", b"line one\n", "é".encode("utf8"), b"  ", b"x y", "中文".encode("utf8"), b"tail"])
+TEXT_CHUNKS = st.sampled_from([b"", b"a", b"line one\n", "é".encode("utf8"), b"  ", b"x y", "中文".encode("utf8"), b"tail"] * 3 +
+                              [b"y" * 70000, ("é" * 3000).encode("utf8")])       # and, now and then, a chunk beyond any buffer size
 BIN_CHUNKS = st.sampled_from([b"", b"\xff\x00", b"\x80abc", b"1", b"\n"])
 NAMES = st.sampled_from(["log", "traceback", "détail", "a b", "x", "reason2", "stdout"])
 
@@ -68,7 +78,7 @@ PAYLOAD = {k: s_payload(k) for k in KINDS}
 PAYLOAD_BOTH = dict(PAYLOAD, skip=s_payload("skip", skip_both=True))
 TAGSET = st.sets(st.sampled_from(TAGS), max_size=2)
 KIND = st.sampled_from(KINDS)
-TIMES = st.sampled_from([None, 0, 1, 2, 5, 9, 3])
+TIMES = st.sampled_from([None, 0, 1, 2, 5, 9, 3, 1.000001, 7.5, 1004])
 
 
 @st.composite
